@@ -631,6 +631,7 @@ func (p *sparser) primary() (*SExpr, error) {
 // contract files
 
 type Clause struct {
+	Local bool // ensures_local: an assertion at every return that may mention the function's local variables; invisible to callers
 	Free  bool // free ensures: assumed by callers, not checked in the callee (listed as an assumption)
 	Label string
 	Props []string // optional restriction
@@ -724,6 +725,7 @@ type FuncContract struct {
 	Asserts  []*AssertAt
 	Uses     []string // axioms made available to this function's obligations
 	IsLemma  bool     // no function body: the ensures clauses are proved from the used axioms alone
+	UFArith  bool     // symbolic float products / quotients are uninterpreted (fmulU / fdivU)
 	Induct   string   // smtlemma: induction variable (Int, >= 0)
 	RawVars  string   // smtlemma: SMT binder list of the universally quantified variables, e.g. "(a (Array Int Int)) (o Int)"
 	RawClaim string   // smtlemma: SMT formula over RawVars and Induct
@@ -753,8 +755,8 @@ var clauseKeywords = map[string]bool{
 	"props": true, "requires": true, "ensures": true, "modifies": true, "loop": true,
 	"invariant": true, "trusted": true, "inline": true, "mode": true, "params": true,
 	"maypanic": true, "fdef": true, "pure": true, "noalloc": true, "set": true, "reason": true,
-	"uses": true, "lemma": true, "exit": true, "free_ensures": true,
-	"smtlemma": true, "induct": true, "vars": true, "claim": true, "pattern": true, "smtaxiom": true, "smtdef": true, "guarded": true, "assert": true,
+	"uses": true, "lemma": true, "exit": true, "free_ensures": true, "ensures_local": true,
+	"ufarith": true, "smtlemma": true, "induct": true, "vars": true, "claim": true, "pattern": true, "smtaxiom": true, "smtdef": true, "guarded": true, "assert": true,
 }
 
 type rawLine struct {
@@ -895,6 +897,8 @@ func ParseSpecFile(path, pkgPath string) (*SpecFile, error) {
 				cur.MayPanic = true
 			case "fdef":
 				cur.FDef = true
+			case "ufarith":
+				cur.UFArith = true
 			case "pure":
 				cur.Pure = true
 			case "noalloc":
@@ -923,7 +927,7 @@ func ParseSpecFile(path, pkgPath string) (*SpecFile, error) {
 					return nil, fail(err)
 				}
 				cur.Ghost = append(cur.Ghost, gs)
-			case "requires", "ensures", "invariant", "exit", "free_ensures":
+			case "requires", "ensures", "invariant", "exit", "free_ensures", "ensures_local":
 				cl, err := parseClause(rest)
 				if err != nil {
 					return nil, fail(err)
@@ -936,6 +940,9 @@ func ParseSpecFile(path, pkgPath string) (*SpecFile, error) {
 					cur.Ensures = append(cur.Ensures, cl)
 				case "free_ensures":
 					cl.Free = true
+					cur.Ensures = append(cur.Ensures, cl)
+				case "ensures_local":
+					cl.Local = true
 					cur.Ensures = append(cur.Ensures, cl)
 				case "exit":
 					if curLoop == nil {
